@@ -163,6 +163,21 @@ func TestWorker(t *testing.T) {
 			v := p.Check(t, &sc)
 			emit("RESULT", ResultLine{Seed: sc.Seed, File: f, Verdict: v, WallMs: time.Since(t0).Milliseconds()})
 		}
+	case "dump":
+		// debugging aid: run the scenario of each file once under its own schedule and write the
+		// folded diagnostics and every answer next to it (<file>.dump)
+		for _, f := range job.Replays {
+			b, err := os.ReadFile(f)
+			if err != nil {
+				t.Fatal(err)
+			}
+			var sc Scenario
+			if err := json.Unmarshal(b, &sc); err != nil {
+				t.Fatal(err)
+			}
+			res := Run(t, &sc, sc.Sched, Hooks{})
+			os.WriteFile(f+".dump", []byte("outcome: "+res.Outcome+" "+res.Detail+"\n--- view\n"+res.ViewString()+"--- answers\n"+res.AnswerString()), 0644)
+		}
 	default:
 		t.Fatalf("unknown mode %q", job.Mode)
 	}
